@@ -438,3 +438,100 @@ Proof.
     by (destruct (run_outcome (live_opts plan opts) plan); try discriminate; auto).
   pose proof (resume_stages_decreases _ _ Ho). lia.
 Qed.
+
+(* ---------------------------------------------------------------- every run with call options of its own *)
+
+Lemma plan_seqf_uids fuel : forall k os plan op,
+  In op (plan_seqf fuel k os plan) -> subseq (rstages_uids (snd op)) (rstages_uids plan) /\ exists j, fst op = os j.
+Proof.
+  induction fuel as [|f IH]; simpl; intros k os plan op H; [contradiction|].
+  destruct H as [<-|H]; [split; [apply subseq_refl|eauto]|].
+  destruct (is_intr _); [|contradiction].
+  destruct (IH _ _ _ _ H) as (S & J). split; auto.
+  eapply subseq_trans; [exact S|]. apply resume_stages_uids.
+Qed.
+
+Lemma run_seqf_NoDup fuel os plan g r :
+  NoDup (g :: rstages_uids plan) -> In r (run_seqf fuel os plan) -> NoDup (g :: stages_uids (snd r)).
+Proof.
+  intros N H. unfold run_seqf in H. apply in_map_iff in H. destruct H as (op & <- & Hp). simpl.
+  apply proj_NoDup. eapply NoDup_subseq; [|exact N]. apply ss_keep. eapply plan_seqf_uids; eauto.
+Qed.
+
+Theorem runsf_unit_logs w is_stream g ginf fuel os plan r t :
+  NoDup (g :: rstages_uids plan) ->
+  In r (run_seqf fuel os plan) ->
+  traces (graph_prog is_stream g ginf (fst r) (snd r)) t ->
+  forall e, In e (graph_table is_stream g ginf (fst r) (snd r)) ->
+    filter (of_unit (ue_unit e)) (st_log (run_script true w t)) = uexp_events w e.
+Proof. intros N H T. apply engine_unit_logs; auto. eapply run_seqf_NoDup; eauto. Qed.
+
+Theorem runsf_no_other_events w is_stream g ginf fuel os plan r t :
+  NoDup (g :: rstages_uids plan) ->
+  In r (run_seqf fuel os plan) ->
+  traces (graph_prog is_stream g ginf (fst r) (snd r)) t ->
+  forall ev, In ev (st_log (run_script true w t)) ->
+    exists e, In e (graph_table is_stream g ginf (fst r) (snd r)) /\ ev_unit ev = ue_unit e /\
+              In ev (uexp_events w e).
+Proof. intros N H T. apply engine_no_other_events; auto. eapply run_seqf_NoDup; eauto. Qed.
+
+Theorem runsf_exactly_once_paired w is_stream g ginf fuel os plan r t :
+  NoDup (g :: rstages_uids plan) ->
+  In r (run_seqf fuel os plan) ->
+  traces (graph_prog is_stream g ginf (fst r) (snd r)) t ->
+  forall e, In e (graph_table is_stream g ginf (fst r) (snd r)) ->
+  forall s f, ue_timings e = [s; f] ->
+  forall x tm,
+    List.length (filter (is_ev (ue_unit e) x tm (ue_info e)) (st_log (run_script true w t))) =
+    if (timing_eqb tm s || timing_eqb tm f) && w_needs w x tm
+    then count_occ N.eq_dec (ue_list e ++ w_globals w) x else 0%nat.
+Proof. intros N H T. apply engine_exactly_once_paired; auto. eapply run_seqf_NoDup; eauto. Qed.
+
+(* in every run a handler is invoked for a unit only if it is global or an option of the call of
+   THAT run attaches it to the unit's node path: no handler of another run's call is ever invoked *)
+Theorem runsf_invoked_only_where_attached w is_stream g ginf fuel os plan r t :
+  NoDup (g :: rstages_uids plan) ->
+  In r (run_seqf fuel os plan) ->
+  traces (graph_prog is_stream g ginf (fst r) (snd r)) t ->
+  exists j, forall ev, In ev (st_log (run_script true w t)) ->
+    exists e pe, In (e, pe) (graph_table_p is_stream g ginf (fst r) (snd r)) /\
+      ev_unit ev = ue_unit e /\
+      (In (ev_handler ev) (w_globals w) \/
+       exists o, In o (os j) /\ In (ev_handler ev) (fst o) /\ attaches o pe).
+Proof.
+  intros N H T.
+  pose proof (run_seqf_NoDup _ _ _ _ _ N H) as N'.
+  unfold run_seqf in H. apply in_map_iff in H. destruct H as (op & <- & Hp).
+  destruct (plan_seqf_uids _ _ _ _ _ Hp) as (_ & j & Ej). exists j.
+  intros ev Hev.
+  destruct (engine_invoked_only_where_attached w is_stream g ginf _ _ t N' T ev Hev) as (e & pe & Hin & Hu & D).
+  exists e, pe. repeat split; auto. destruct D as [D|(o' & Ho' & Hx & Ha)]; [left; auto|right].
+  simpl in Ho'. destruct (live_opts_attaches _ _ _ Ho') as (o & Ho & Ef & Hat).
+  exists o. rewrite <- Ej. repeat split; auto. now rewrite <- Ef.
+Qed.
+
+Theorem plan_seqf_complete fuel : forall k os plan,
+  total_intr plan < fuel ->
+  exists pre last, plan_seqf fuel k os plan = pre ++ [last] /\
+    is_intr (run_outcome (live_opts (snd last) (fst last)) (snd last)) = false.
+Proof.
+  induction fuel as [|f IH]; intros k os plan L; [lia|]. simpl.
+  destruct (is_intr (run_outcome (live_opts plan (os k)) plan)) eqn:E.
+  - assert (Ho : run_outcome (live_opts plan (os k)) plan = OutIntr)
+      by (destruct (run_outcome (live_opts plan (os k)) plan); try discriminate; auto).
+    pose proof (resume_stages_decreases _ _ Ho) as D.
+    destruct (IH (S k) os (resume_stages (live_opts plan (os k)) plan)) as (pre & last & Eq & Hl); [lia|].
+    exists ((os k, plan) :: pre), last. split; auto. simpl. now rewrite Eq.
+  - exists [], (os k, plan). split; auto.
+Qed.
+
+Lemma plan_seqf_fuel fuel : forall k os plan d,
+  total_intr plan < fuel -> plan_seqf (fuel + d) k os plan = plan_seqf fuel k os plan.
+Proof.
+  induction fuel as [|f IH]; intros k os plan d L; [lia|]. simpl.
+  destruct (is_intr (run_outcome (live_opts plan (os k)) plan)) eqn:E; auto.
+  f_equal. apply IH.
+  assert (Ho : run_outcome (live_opts plan (os k)) plan = OutIntr)
+    by (destruct (run_outcome (live_opts plan (os k)) plan); try discriminate; auto).
+  pose proof (resume_stages_decreases _ _ Ho). lia.
+Qed.
